@@ -45,6 +45,11 @@ type FakeHost struct {
 
 	Dial   DialFunc
 	Stream StreamFunc
+	// HandlerHook, if set, is called (without locks) before a handler is
+	// registered ("set") or removed ("remove"); it may block (gate).
+	HandlerHook func(op string, pid protocol.ID)
+	// StreamHook, if set, is installed on every stream the host creates.
+	StreamHook func(s *FakeStream, what string)
 
 	closed bool
 }
@@ -115,6 +120,9 @@ func (h *FakeHost) Connect(ctx context.Context, pi peer.AddrInfo) error {
 }
 
 func (h *FakeHost) SetStreamHandler(pid protocol.ID, handler network.StreamHandler) {
+	if h.HandlerHook != nil {
+		h.HandlerHook("set", pid)
+	}
 	h.mu.Lock()
 	h.handlers[pid] = handler
 	h.HandlerLog = append(h.HandlerLog, "set:"+string(pid))
@@ -126,6 +134,9 @@ func (h *FakeHost) SetStreamHandlerMatch(pid protocol.ID, _ func(protocol.ID) bo
 }
 
 func (h *FakeHost) RemoveStreamHandler(pid protocol.ID) {
+	if h.HandlerHook != nil {
+		h.HandlerHook("remove", pid)
+	}
 	h.mu.Lock()
 	delete(h.handlers, pid)
 	h.HandlerLog = append(h.HandlerLog, "remove:"+string(pid))
@@ -362,6 +373,7 @@ func (c *FakeConn) OpenStream(proto protocol.ID, dir network.Direction) *FakeStr
 	id := fmt.Sprintf("s%d", c.net.seq)
 	c.net.mu.Unlock()
 	s := &FakeStream{id: id, conn: c, proto: proto, dir: dir, notify: make(chan struct{}, 1), wnotify: make(chan struct{}, 1)}
+	s.Hook = c.net.h.StreamHook
 	c.streams = append(c.streams, s)
 	return s
 }
@@ -394,6 +406,11 @@ type FakeStream struct {
 
 	// Log of local-side lifecycle calls ("close", "reset", "closewrite").
 	Calls []string
+	// Hook, if set, is called without locks before a local Reset ("reset",
+	// may block) and after a successful local Write ("write").
+	Hook func(s *FakeStream, what string)
+	// Tag is free for the harness.
+	Tag int
 }
 
 var _ network.Stream = (*FakeStream)(nil)
@@ -448,19 +465,26 @@ func (s *FakeStream) Read(p []byte) (int, error) {
 
 func (s *FakeStream) Write(p []byte) (int, error) {
 	s.mu.Lock()
-	defer s.mu.Unlock()
 	if s.reset {
+		s.mu.Unlock()
 		return 0, ErrStreamReset
 	}
 	if s.localClosed {
+		s.mu.Unlock()
 		return 0, errors.New("fakestream: write on closed stream")
 	}
 	if s.writeErr != nil {
-		return 0, s.writeErr
+		err := s.writeErr
+		s.mu.Unlock()
+		return 0, err
 	}
 	s.out = append(s.out, p...)
 	s.outTotal += len(p)
 	s.poke(s.wnotify)
+	s.mu.Unlock()
+	if s.Hook != nil {
+		s.Hook(s, "write")
+	}
 	return len(p), nil
 }
 
@@ -494,6 +518,9 @@ func (s *FakeStream) CloseRead() error {
 }
 
 func (s *FakeStream) Reset() error {
+	if s.Hook != nil {
+		s.Hook(s, "reset")
+	}
 	s.mu.Lock()
 	s.Calls = append(s.Calls, "reset")
 	s.reset = true
@@ -562,6 +589,13 @@ func (s *FakeStream) TakeWritten() []byte {
 	b := s.out
 	s.out = nil
 	return b
+}
+
+// PeekWritten returns a copy of the bytes written by the local side and not yet taken.
+func (s *FakeStream) PeekWritten() []byte {
+	s.mu.Lock()
+	defer s.mu.Unlock()
+	return append([]byte(nil), s.out...)
 }
 
 // WrittenTotal is the total number of bytes the local side has written.
